@@ -299,6 +299,18 @@ pub fn check_unchanged<C: KComp>(buf: &[C], old: &[C]) {
     }
 }
 
+/// Like `resizer_with_scratch`, but the intermediate-pass buffer has `CUT` bytes less *length*
+/// than capacity (a `Vec` that was grown by doubling and is shorter than its allocation).
+pub fn resizer_with_short_conv<const A: usize, const B: usize, const CUT: usize>(cpu: CpuExtensions) -> Resizer {
+    let a: Box<[u8; A]> = Box::new(kani::any());
+    let b: Box<[u8; B]> = Box::new(kani::any());
+    let a: Box<[u8]> = a;
+    let b: Box<[u8]> = b;
+    let mut bv = b.into_vec();
+    bv.truncate(B - CUT);
+    Resizer::verif_with_state(cpu, a.into_vec(), bv, Vec::new())
+}
+
 /// Copy the `w x h` region at (l, t) of a `pw`-wide parent (n components per pixel).
 pub fn extract_region<C: Copy, const M: usize, const K: usize>(parent: &[C; M], n: usize, pw: usize, l: usize, t: usize, w: usize, h: usize) -> [C; K] {
     let mut out = [parent[0]; K];
